@@ -316,6 +316,32 @@ type Remote struct {
 	paused  bool
 	unpause chan struct{}
 	done    chan struct{}
+	auto    func(ref.Msg) []ref.Msg
+	outbox  chan ref.Msg
+}
+
+// Auto installs a responder: f is called (from the remote's reader goroutine)
+// for every message received and the messages it returns are sent, in order,
+// by a separate sender goroutine.
+func (r *Remote) Auto(f func(ref.Msg) []ref.Msg) {
+	r.mu.Lock()
+	r.auto = f
+	if r.outbox == nil {
+		r.outbox = make(chan ref.Msg, 4096)
+		go func() {
+			for {
+				select {
+				case m := <-r.outbox:
+					if r.Send(m) != nil {
+						return
+					}
+				case <-r.done:
+					return
+				}
+			}
+		}()
+	}
+	r.mu.Unlock()
 }
 
 func (r *Remote) roles() ref.Roles {
@@ -386,6 +412,14 @@ func (r *Remote) reader() {
 			r.raw = r.raw[k:]
 			r.inbox = append(r.inbox, m)
 			r.all = append(r.all, m)
+			if r.auto != nil {
+				for _, reply := range r.auto(m) {
+					select {
+					case r.outbox <- reply:
+					default:
+					}
+				}
+			}
 		}
 		if err != nil && errors.Is(err, os.ErrDeadlineExceeded) {
 			r.mu.Unlock()
